@@ -46,15 +46,326 @@ class Repo:
         self.synthesised_properties = []
         self.inlined_helpers = []
         self.split_locals = []
+        self.desugared = []
+        self._desugar()
+        self._dict_views()
         self._inline_helpers()
         self._split_conditional_locals()
         self.substituted_locals = []
         self._substitute_block_locals()
         self._split_ifexp_statements()
+        self.seqnorm_abandoned = []
+        from .seqnorm import normalise_builders
+        self.seqnorm = normalise_builders(self)
+        if self.seqnorm:
+            # the residual bodies may contain conditional expressions / locals that the passes above normalise
+            self._split_conditional_locals()
+            self._substitute_block_locals()
+            self._split_ifexp_statements()
         self._synthesise_properties()
         self._expand_properties()
 
     # ---- normalisation
+    def _dict_views(self):
+        """NORM: other spellings of a read of a dictionary entry are rewritten to `D["k"]`:
+        `a, b = itemgetter("k1", "k2")(D)` -> `a = D["k1"]; b = D["k2"]`, and attribute reads `ns.k` of a local
+        `ns = SimpleNamespace(**D)` (bound once, used only through attribute reads, D not written in the function)."""
+        repo = self
+
+        def written(fn, name):
+            for n in ast.walk(fn):
+                if isinstance(n, ast.Subscript) and isinstance(n.ctx, (ast.Store, ast.Del)) and isinstance(n.value, ast.Name) \
+                        and n.value.id == name:
+                    return True
+                if isinstance(n, ast.Call) and isinstance(n.func, ast.Attribute) and isinstance(n.func.value, ast.Name) \
+                        and n.func.value.id == name and n.func.attr in ("update", "pop", "setdefault", "clear", "popitem"):
+                    return True
+            return False
+
+        def rewrite_itemgetter(stmts, rel, fname):
+            out = []
+            for s_ in stmts:
+                for fld in ("body", "orelse", "finalbody"):
+                    if isinstance(getattr(s_, fld, None), list) and not isinstance(s_, (ast.FunctionDef, ast.ClassDef)):
+                        setattr(s_, fld, rewrite_itemgetter(getattr(s_, fld), rel, fname))
+                v = getattr(s_, "value", None)
+                if isinstance(s_, ast.Assign) and len(s_.targets) == 1 and isinstance(v, ast.Call) and isinstance(v.func, ast.Call) \
+                        and isinstance(v.func.func, ast.Name) and v.func.func.id == "itemgetter" and len(v.args) == 1 \
+                        and isinstance(v.args[0], ast.Name) and not v.keywords and v.func.args \
+                        and all(isinstance(a, ast.Constant) and isinstance(a.value, str) for a in v.func.args):
+                    keys = [a.value for a in v.func.args]
+                    tg = s_.targets[0]
+                    names = [tg] if (len(keys) == 1 and isinstance(tg, ast.Name)) else (list(tg.elts) if isinstance(tg, ast.Tuple) else [])
+                    if len(names) == len(keys) and all(isinstance(x, ast.Name) for x in names):
+                        for nm, k in zip(names, keys):
+                            new = ast.Assign([ast.Name(nm.id, ast.Store())], ast.Subscript(ast.Name(v.args[0].id, ast.Load()),
+                                                                                         ast.Constant(k), ast.Load()))
+                            ast.copy_location(new, s_)
+                            ast.fix_missing_locations(new)
+                            out.append(new)
+                        repo.desugared.append((rel, fname, "itemgetter"))
+                        continue
+                out.append(s_)
+            return out
+
+        for rel, m in self.modules.items():
+            for F in ast.walk(m.tree):
+                if not isinstance(F, ast.FunctionDef):
+                    continue
+                F.body = rewrite_itemgetter(F.body, rel, F.name)
+                views = {}
+                for n in ast.walk(F):
+                    if isinstance(n, ast.Assign) and len(n.targets) == 1 and isinstance(n.targets[0], ast.Name) \
+                            and isinstance(n.value, ast.Call) and isinstance(n.value.func, (ast.Name, ast.Attribute)) \
+                            and getattr(n.value.func, "id", getattr(n.value.func, "attr", "")) == "SimpleNamespace" \
+                            and not n.value.args and len(n.value.keywords) == 1 and n.value.keywords[0].arg is None \
+                            and isinstance(n.value.keywords[0].value, ast.Name):
+                        views.setdefault(n.targets[0].id, []).append((n, n.value.keywords[0].value.id))
+                for ns, defs in views.items():
+                    if len(defs) != 1:
+                        continue
+                    node, D = defs[0]
+                    stores = [x for x in ast.walk(F) if isinstance(x, ast.Name) and x.id == ns and isinstance(x.ctx, (ast.Store, ast.Del))]
+                    if len(stores) != 1 or written(F, D):
+                        continue
+                    dstores = [x for x in ast.walk(F) if isinstance(x, ast.Name) and x.id == D and isinstance(x.ctx, ast.Store)]
+                    if len(dstores) > 1:
+                        continue
+                    loads = [x for x in ast.walk(F) if isinstance(x, ast.Name) and x.id == ns and isinstance(x.ctx, ast.Load)]
+                    attrs = [x for x in ast.walk(F) if isinstance(x, ast.Attribute) and isinstance(x.value, ast.Name)
+                             and x.value.id == ns and isinstance(x.ctx, ast.Load)]
+                    if len(loads) != len(attrs):
+                        continue        # the namespace itself escapes or is written through
+
+                    class V(ast.NodeTransformer):
+                        def visit_Attribute(self, x):
+                            self.generic_visit(x)
+                            if isinstance(x.value, ast.Name) and x.value.id == ns and isinstance(x.ctx, ast.Load):
+                                return ast.copy_location(ast.Subscript(ast.Name(D, ast.Load()), ast.Constant(x.attr), ast.Load()), x)
+                            return x
+                    F.body = [V().visit(b) for b in F.body]
+                    ast.fix_missing_locations(F)
+                    repo.desugared.append((rel, F.name, f"namespace {ns}"))
+
+    def _desugar(self):
+        """NORM: surface syntax that means the same as a construct the analyses already follow is rewritten into it:
+        annotated assignments (`x: T = e` -> `x = e`, a bare `x: T` is dropped), parameter/return annotations are
+        removed, `match subject: case ...` over value / singleton / wildcard / or-patterns and tuples of those becomes
+        an if/elif chain (the subject is evaluated once: only side-effect-free subjects are rewritten), and
+        `v = <call>; yield v` where v is read nowhere else becomes `yield <call>`."""
+        import copy
+        repo = self
+
+        def pure(e):
+            return not any(isinstance(x, (ast.Call, ast.Yield, ast.YieldFrom, ast.Await, ast.NamedExpr, ast.Lambda))
+                           for x in ast.walk(e))
+
+        def pat_test(subj, pat):
+            """pattern -> test expression, or None when the pattern binds names / is not in the fragment"""
+            if isinstance(pat, ast.MatchValue):
+                return ast.Compare(copy.deepcopy(subj), [ast.Eq()], [copy.deepcopy(pat.value)])
+            if isinstance(pat, ast.MatchSingleton):
+                return ast.Compare(copy.deepcopy(subj), [ast.Is()], [ast.Constant(pat.value)])
+            if isinstance(pat, ast.MatchAs) and pat.pattern is None and pat.name is None:
+                return ast.Constant(True)
+            if isinstance(pat, ast.MatchOr):
+                parts = [pat_test(subj, p_) for p_ in pat.patterns]
+                if any(p_ is None for p_ in parts):
+                    return None
+                return ast.BoolOp(ast.Or(), parts)
+            if isinstance(pat, ast.MatchSequence) and isinstance(subj, ast.Tuple) and len(subj.elts) == len(pat.patterns) \
+                    and not any(isinstance(p_, ast.MatchStar) for p_ in pat.patterns):
+                parts = [pat_test(e, p_) for e, p_ in zip(subj.elts, pat.patterns)]
+                if any(p_ is None for p_ in parts):
+                    return None
+                parts = [p_ for p_ in parts if not (isinstance(p_, ast.Constant) and p_.value is True)]
+                if not parts:
+                    return ast.Constant(True)
+                return parts[0] if len(parts) == 1 else ast.BoolOp(ast.And(), parts)
+            return None
+
+        def match_to_if(s_):
+            if not pure(s_.subject):
+                return None
+            chain = []
+            for c in s_.cases:
+                t = pat_test(s_.subject, c.pattern)
+                if t is None:
+                    return None
+                if c.guard is not None:
+                    t = c.guard if (isinstance(t, ast.Constant) and t.value is True) else ast.BoolOp(ast.And(), [t, c.guard])
+                chain.append((t, c.body))
+            node = None
+            for t, body in reversed(chain):
+                if isinstance(t, ast.Constant) and t.value is True:
+                    node = list(body)
+                    continue
+                new = ast.If(t, list(body), node if isinstance(node, list) else ([node] if node is not None else []))
+                ast.copy_location(new, s_)
+                node = new
+            if isinstance(node, list):
+                return node
+            ast.fix_missing_locations(node)
+            return [node]
+
+        def rewrite(stmts, rel, fname):
+            out = []
+            for s_ in stmts:
+                for fld in ("body", "orelse", "finalbody"):
+                    if hasattr(s_, fld) and isinstance(getattr(s_, fld), list) and not isinstance(s_, (ast.FunctionDef, ast.ClassDef)):
+                        setattr(s_, fld, rewrite(getattr(s_, fld), rel, fname))
+                if isinstance(s_, ast.Try):
+                    for h in s_.handlers:
+                        h.body = rewrite(h.body, rel, fname)
+                if isinstance(s_, ast.Match):
+                    for c in s_.cases:
+                        c.body = rewrite(c.body, rel, fname)
+                    r = match_to_if(s_)
+                    if r is not None:
+                        repo.desugared.append((rel, fname, "match"))
+                        out.extend(r)
+                        continue
+                if isinstance(s_, ast.AnnAssign) and isinstance(s_.target, (ast.Name, ast.Attribute)):
+                    repo.desugared.append((rel, fname, "annotation"))
+                    if s_.value is None:
+                        continue
+                    new = ast.Assign([s_.target], s_.value)
+                    ast.copy_location(new, s_)
+                    out.append(new)
+                    continue
+                out.append(s_)
+            return out
+
+        def yield_locals(F, rel):
+            loads = {}
+            for x in ast.walk(F):
+                if isinstance(x, ast.Name) and isinstance(x.ctx, ast.Load):
+                    loads[x.id] = loads.get(x.id, 0) + 1
+            pairs = {}
+
+            def scan(stmts):
+                for a, b in zip(stmts, stmts[1:]):
+                    if isinstance(a, ast.Assign) and len(a.targets) == 1 and isinstance(a.targets[0], ast.Name) \
+                            and isinstance(a.value, ast.Call) and isinstance(b, ast.Expr) and isinstance(b.value, ast.Yield) \
+                            and isinstance(b.value.value, ast.Name) and b.value.value.id == a.targets[0].id:
+                        pairs.setdefault(a.targets[0].id, []).append((stmts, a, b))
+                for s_ in stmts:
+                    if isinstance(s_, (ast.FunctionDef, ast.ClassDef)):
+                        continue
+                    for fld in ("body", "orelse", "finalbody"):
+                        if isinstance(getattr(s_, fld, None), list):
+                            scan(getattr(s_, fld))
+                    if isinstance(s_, ast.Try):
+                        for h in s_.handlers:
+                            scan(h.body)
+            scan(F.body)
+            for name, lst in pairs.items():
+                if loads.get(name, 0) != len(lst):
+                    continue        # read somewhere else as well
+                for stmts, a, b in lst:
+                    b.value.value = a.value
+                    stmts.remove(a)
+                repo.desugared.append((rel, F.name, f"yield {name}"))
+
+        def iter_locals(F, rel):
+            """a local bound once to `range(..)`, `reversed(range(..))` or `iter(..)` of those and read only as the iterable
+            of `for` loops: the bounds are captured where the local is bound; a `range` is re-iterable (each loop starts
+            again), `reversed(..)`/`iter(..)` give a one-shot iterator whose position survives from one loop to the next
+            (a second loop over it finds it exhausted) - written out as a counter and a while loop"""
+            binds, loads, stores = {}, {}, {}
+            for x in ast.walk(F):
+                if isinstance(x, ast.Name):
+                    (loads if isinstance(x.ctx, ast.Load) else stores).setdefault(x.id, []).append(x)
+            fors = {}
+            for x in ast.walk(F):
+                if isinstance(x, ast.For) and isinstance(x.iter, ast.Name) and isinstance(x.target, ast.Name) and not x.orelse:
+                    fors.setdefault(x.iter.id, []).append(x)
+
+            def shape(e):
+                """-> (oneshot, descending, lo, hi) for range / reversed(range) / iter(those), unit step; None otherwise"""
+                one = False
+                if isinstance(e, ast.Call) and isinstance(e.func, ast.Name) and e.func.id == "iter" and len(e.args) == 1 and not e.keywords:
+                    one, e = True, e.args[0]
+                rev = False
+                if isinstance(e, ast.Call) and isinstance(e.func, ast.Name) and e.func.id == "reversed" and len(e.args) == 1 \
+                        and not e.keywords:
+                    one, rev, e = True, True, e.args[0]
+                if not (isinstance(e, ast.Call) and isinstance(e.func, ast.Name) and e.func.id == "range" and 1 <= len(e.args) <= 2
+                        and not e.keywords and all(pure(a) for a in e.args)):
+                    return None
+                lo = e.args[0] if len(e.args) == 2 else ast.Constant(0)
+                hi = e.args[1] if len(e.args) == 2 else e.args[0]
+                return one, rev, lo, hi
+            done = False
+            for name, fl in fors.items():
+                if len(stores.get(name, [])) != 1 or len(loads.get(name, [])) != len(fl):
+                    continue
+                asg = [x for x in ast.walk(F) if isinstance(x, ast.Assign) and len(x.targets) == 1
+                       and isinstance(x.targets[0], ast.Name) and x.targets[0].id == name]
+                if len(asg) != 1:
+                    continue
+                sh = shape(asg[0].value)
+                if sh is None:
+                    continue
+                one, rev, lo, hi = sh
+                A, B, IT = f"{name}__lo", f"{name}__hi", f"{name}__it"
+
+                def nm(x, ctx=None):
+                    return ast.Name(x, ctx or ast.Load())
+                init = [ast.Assign([nm(A, ast.Store())], copy.deepcopy(lo)), ast.Assign([nm(B, ast.Store())], copy.deepcopy(hi))]
+                start = ast.BinOp(nm(B), ast.Sub(), ast.Constant(1)) if rev else nm(A)
+                if one:
+                    init.append(ast.Assign([nm(IT, ast.Store())], start))
+
+                def replace(stmts):
+                    out = []
+                    for s_ in stmts:
+                        for fld in ("body", "orelse", "finalbody"):
+                            if isinstance(getattr(s_, fld, None), list) and not isinstance(s_, (ast.FunctionDef, ast.ClassDef)):
+                                setattr(s_, fld, replace(getattr(s_, fld)))
+                        if s_ is asg[0]:
+                            for i_ in init:
+                                ast.copy_location(i_, s_)
+                                ast.fix_missing_locations(i_)
+                            out.extend(copy.deepcopy(i_) for i_ in init)
+                            continue
+                        if s_ in fl:
+                            if not one:
+                                s_.iter = ast.copy_location(ast.Call(nm("range"), [nm(A), nm(B)], []), s_.iter)
+                                ast.fix_missing_locations(s_.iter)
+                                out.append(s_)
+                                continue
+                            test = ast.Compare(nm(IT), [ast.GtE() if rev else ast.Lt()], [nm(A) if rev else nm(B)])
+                            step = [ast.Assign([ast.Name(s_.target.id, ast.Store())], nm(IT)),
+                                    ast.AugAssign(nm(IT, ast.Store()), ast.Sub() if rev else ast.Add(), ast.Constant(1))]
+                            w = ast.While(test, step + list(s_.body), [])
+                            ast.copy_location(w, s_)
+                            for x in [test] + step:
+                                ast.copy_location(x, s_)
+                                ast.fix_missing_locations(x)
+                            out.append(w)
+                            continue
+                        out.append(s_)
+                    return out
+                F.body = replace(F.body)
+                repo.desugared.append((rel, F.name, f"{'one-shot iterator' if one else 'range'} {name}"))
+                done = True
+            return done
+
+        for rel, m in self.modules.items():
+            for n in ast.walk(m.tree):
+                if isinstance(n, (ast.FunctionDef, ast.AsyncFunctionDef)):
+                    n.body = rewrite(n.body, rel, n.name)
+                    iter_locals(n, rel)
+                    n.returns = None
+                    for a in n.args.args + n.args.kwonlyargs + n.args.posonlyargs + [x for x in (n.args.vararg, n.args.kwarg) if x]:
+                        a.annotation = None
+                elif isinstance(n, ast.ClassDef):
+                    n.body = rewrite(n.body, rel, n.name)
+            for n in ast.walk(m.tree):
+                if isinstance(n, ast.FunctionDef) and any(isinstance(x, ast.Yield) for x in ast.walk(n)):
+                    yield_locals(n, rel)
+
     def _split_ifexp_statements(self, prefix="hrevolve_sequences/"):
         """NORM (builders only): an expression statement that contains `A if C else B` with a side-effect-free C becomes
         `if C: <statement with A> else: <statement with B>`"""
@@ -79,7 +390,7 @@ class Repo:
                 for fld in ("body", "orelse", "finalbody"):
                     if hasattr(s_, fld) and isinstance(getattr(s_, fld), list) and not isinstance(s_, (ast.FunctionDef, ast.ClassDef)):
                         setattr(s_, fld, rewrite(getattr(s_, fld), depth))
-                if isinstance(s_, ast.Expr) and depth < 3:
+                if isinstance(s_, ast.Expr) and depth < 3 and (in_builders or isinstance(s_.value, ast.Yield)):
                     ife = [x for x in ast.walk(s_) if isinstance(x, ast.IfExp) and pure(x.test)]
                     if ife:
                         tgt = ife[0]
@@ -97,8 +408,7 @@ class Repo:
             return out
 
         for rel, m in self.modules.items():
-            if not rel.startswith(prefix):
-                continue
+            in_builders = rel.startswith(prefix)
             for n in ast.walk(m.tree):
                 if isinstance(n, ast.FunctionDef):
                     n.body = rewrite(n.body)
@@ -377,8 +687,16 @@ class Repo:
                 if isinstance(node.func, ast.Name) and node.func.id in exprfns and not node.keywords \
                         and node.func.id != self.owner:
                     params, e = exprfns[node.func.id]
-                    if len(node.args) != len(params) or not all(pure_arg(a) for a in node.args):
+                    if len(node.args) != len(params):
                         return node
+                    if not all(pure_arg(a) for a in node.args):
+                        # an argument that is not a plain expression (a comprehension, a call) may be substituted only if
+                        # it is evaluated exactly once and nothing else is evaluated in the helper: a single parameter
+                        # read exactly once, e.g. `def _best_split(costs): return argmin(costs)`
+                        uses = [x.id for x in ast.walk(e) if isinstance(x, ast.Name) and isinstance(x.ctx, ast.Load) and x.id in params]
+                        if not (len(params) == 1 and uses == params and not any(isinstance(a, ast.Starred) for a in node.args)
+                                and isinstance(e, ast.Call) and len(e.args) == 1 and isinstance(e.args[0], ast.Name) and not e.keywords):
+                            return node
                     bound = {x.id for x in ast.walk(e) if isinstance(x, ast.Name) and isinstance(x.ctx, ast.Store)}
                     argnames = {x.id for a in node.args for x in ast.walk(a) if isinstance(x, ast.Name)}
                     if bound & argnames or bound & set(params):
@@ -393,6 +711,89 @@ class Repo:
                 if isinstance(n, ast.FunctionDef) and n.name not in exprfns:
                     tr = InlineExpr(rel, n.name)
                     n.body = [tr.visit(b) for b in n.body]
+
+        # (a') expression methods: `self.m(args)` where m (defined once in the package, undecorated) only returns an
+        #      expression or is a chain `if c: return A ... return Z` of side-effect-free tests
+        def chain_expr(body):
+            body = docless(body)
+            if not body:
+                return None
+            s0 = body[0]
+            if isinstance(s0, ast.Return) and s0.value is not None and len(body) == 1:
+                return s0.value
+            if isinstance(s0, ast.If) and pure_arg(s0.test):
+                a = chain_expr(s0.body)
+                b = chain_expr(s0.orelse) if s0.orelse else chain_expr(body[1:])
+                if s0.orelse and len(body) > 1:
+                    return None
+                if a is not None and b is not None:
+                    return ast.IfExp(s0.test, a, b)
+            return None
+        mcount = {}
+        for rel, m in self.modules.items():
+            for c in m.tree.body:
+                if isinstance(c, ast.ClassDef):
+                    for n in c.body:
+                        if isinstance(n, ast.FunctionDef):
+                            mcount[n.name] = mcount.get(n.name, 0) + 1
+        exprmeths = {}
+        for rel, m in self.modules.items():
+            for c in m.tree.body:
+                if not isinstance(c, ast.ClassDef):
+                    continue
+                for n in c.body:
+                    if isinstance(n, ast.FunctionDef) and not n.decorator_list and plain_params(n) and mcount.get(n.name) == 1 \
+                            and n.args.args and n.args.args[0].arg == "self" and n.name.startswith("_") and not n.name.startswith("__"):
+                        e = chain_expr(n.body)
+                        if e is None or any(isinstance(x, (ast.Lambda, ast.Yield, ast.YieldFrom, ast.Await, ast.NamedExpr, ast.Starred))
+                                            or (isinstance(x, ast.Attribute) and x.attr == n.name) for x in ast.walk(e)):
+                            continue
+                        if any(isinstance(x, ast.Name) and isinstance(x.ctx, ast.Store) for x in ast.walk(e)):
+                            continue
+                        # only action-valued or plain value helpers: calls inside must be constructors / pure builtins
+                        exprmeths[n.name] = ([a.arg for a in n.args.args[1:]], e, c.name)
+
+        class InlineMeth(ast.NodeTransformer):
+            def __init__(self, rel, owner):
+                self.rel, self.owner = rel, owner
+
+            def visit_Call(self, node):
+                self.generic_visit(node)
+                f = node.func
+                if isinstance(f, ast.Attribute) and isinstance(f.value, ast.Name) and f.value.id == "self" and f.attr in exprmeths \
+                        and not node.keywords and f.attr != self.owner:
+                    params, e, cname = exprmeths[f.attr]
+                    if len(node.args) != len(params) or not all(pure_arg(a) for a in node.args):
+                        return node
+                    new = Bind(dict(zip(params, node.args))).visit(copy.deepcopy(e))
+                    repo.inlined_helpers.append((self.rel, self.owner, f.attr))
+                    return reposition(new, node)
+                return node
+
+        def bool_ifexp(t):
+            """in a test (under not/and/or only), `A if c else B` with a side-effect-free c is `(c and A) or (not c and B)`"""
+            if isinstance(t, ast.IfExp) and pure_arg(t.test):
+                new = ast.BoolOp(ast.Or(), [ast.BoolOp(ast.And(), [copy.deepcopy(t.test), bool_ifexp(t.body)]),
+                                            ast.BoolOp(ast.And(), [ast.UnaryOp(ast.Not(), copy.deepcopy(t.test)), bool_ifexp(t.orelse)])])
+                return ast.copy_location(new, t)
+            if isinstance(t, ast.UnaryOp) and isinstance(t.op, ast.Not):
+                t.operand = bool_ifexp(t.operand)
+            elif isinstance(t, ast.BoolOp):
+                t.values = [bool_ifexp(v) for v in t.values]
+            return t
+
+        if exprmeths:
+            for rel, m in self.modules.items():
+                for c in m.tree.body:
+                    if isinstance(c, ast.ClassDef):
+                        for n in c.body:
+                            if isinstance(n, ast.FunctionDef) and n.name not in exprmeths:
+                                tr = InlineMeth(rel, n.name)
+                                n.body = [tr.visit(b) for b in n.body]
+                                for x in ast.walk(n):
+                                    if isinstance(x, (ast.If, ast.While)) and any(isinstance(y, ast.IfExp) for y in ast.walk(x.test)):
+                                        x.test = bool_ifexp(x.test)
+                                        ast.fix_missing_locations(x)
 
         # (b) nested statement helpers
         def inline_stmt_helpers(rel, F):
